@@ -1,0 +1,20 @@
+//go:build verif
+
+package transport
+
+import (
+	"net/http"
+
+	"github.com/vektah/gqlparser/v2/gqlerror"
+)
+
+// StatusForVerif exports statusFor to the verification harness (/verif, property C09).
+func StatusForVerif(errs gqlerror.List) int { return statusFor(errs) }
+
+// StatusForGraphQLResponseVerif exports statusForGraphQLResponse to the verification harness.
+func StatusForGraphQLResponseVerif(errs gqlerror.List) int { return statusForGraphQLResponse(errs) }
+
+// DetermineResponseContentTypeVerif exports determineResponseContentType to the verification harness.
+func DetermineResponseContentTypeVerif(explicitHeaders map[string][]string, r *http.Request) string {
+	return determineResponseContentType(explicitHeaders, r)
+}
